@@ -429,6 +429,8 @@ def _uses_of_local(func, l, start_block, after_stmt=None):
         elif t["k"] == "drop":
             if t["pl"]["l"] == l:
                 out.append((b, "drop", t))
+                if not used and not t["pl"]["p"]:
+                    out.append((b, "dropped-unused", t))      # this path reaches the value's drop and nothing has looked at it
         elif t["k"] == "switch":
             if _op_mentions(t["discr"], l):
                 out.append((b, "switch", t))
@@ -468,7 +470,7 @@ def _other_error_arms(func, t, l):
     if kind is None or src is None or src["l"] == l:
         return set()
     ty = src.get("ty", "")
-    if kind == "discr" and not ty.startswith("core::result::Result<"):
+    if kind == "discr" and not (ty.startswith("core::result::Result<") or ty.startswith("core::ops::control_flow::ControlFlow<core::result::Result<core::convert::Infallible")):
         return set()
     vals = {tb: v for v, tb in t["targets"]}
     out = set()
@@ -510,6 +512,8 @@ def _fate_of_local(F, func, l, start, visiting, depth, after=None):
     for b, kind, x in uses:
         if kind == "drop":
             continue
+        if kind == "dropped-unused":
+            return "dropped:unused-on-some-path"
         if kind == "overwritten":
             # a later value replaces this one on a path where nothing looked at it (a loop that keeps the last result only)
             return "dropped:overwritten-before-checked"
